@@ -49,6 +49,8 @@ def setup_modules():
         MODDIR = tempfile.mkdtemp(prefix="verif_c07_")
         with open(os.path.join(MODDIR, "verif_c07_canary.py"), "w") as f:
             f.write("import props.c07 as _h\n_h.CANARY['module-imported'] += 1\n\nclass Boom(Exception):\n"
+                    "    def __new__(cls, *a):\n        _h.CANARY['custom-exception-instantiated'] += 1\n"
+                    "        return Exception.__new__(cls, *a)\n"
                     "    def __init__(self, *a):\n        _h.CANARY['ctor'] += 1\n\nclass Thing(object):\n    pass\n")
         sys.path.insert(0, MODDIR)
     sys.modules.pop("verif_c07_canary", None)
@@ -229,7 +231,9 @@ def run_history(case):
         link, link2 = sk.Link(k), sk.Link(k)
         conn = victim._connect(Channel(link.a), {"sync_request_timeout": 2})
         type(victim)._protocol = protocol.Connection
-        conn2 = victim2._connect(Channel(link2.a), {})
+        # the second connection may be one that legitimately allows custom exceptions (its business, not the first one's)
+        conn2 = victim2._connect(Channel(link2.a), {"instantiate_custom_exceptions": True, "import_custom_exceptions": True}
+                                 if case.get("conn2_custom_exc") else {})
         peer = RawPeer(link.b, strict=False)
         peer2 = RawPeer(link2.b, strict=False)
         w = World(conn, conn2, victim, victim2, hidden)
@@ -334,7 +338,7 @@ def run_history(case):
             for name, n in trips.items():
                 if n:
                     problems.append(("tripwire", name, {"after-message": i, "message": m}))
-            new_mods = [x for x in set(sys.modules) - mods_before if x.startswith(("verif_c07", "antigravity", "this", "idlelib", "turtle"))]
+            new_mods = [x for x in set(sys.modules) - set(mods_before) if x.startswith(("verif_c07", "antigravity", "this", "idlelib", "turtle"))]
             if new_mods or CANARY["module-imported"]:
                 problems.append(("import", "peer-named module imported: %s" % (new_mods or ["verif_c07_canary"])[0], {"after-message": i, "message": m}))
 
@@ -356,6 +360,12 @@ def run_history(case):
                 peer.send_msg(rc.MSG_REQUEST, 9500, (H["DEL"], (rc.LABEL_TUPLE, ((rc.LABEL_LOCAL_REF, victim_ref), (rc.LABEL_VALUE, 5)))))
                 drain()
                 w.stale.append(victim_ref)
+            if case.get("conn2_custom_exc"):
+                # the other connection receives (and is allowed to rebuild) the custom exception class first
+                peer2.send_msg(rc.MSG_EXCEPTION, 77, (("verif_c07_canary", "Boom"), ("x",), (), "tb"))
+                k.sleep(0.2)
+                CANARY.clear()
+                mods_before.update(sys.modules)
             for mod, attr in ((pickle, "dumps"), (pickle, "loads"), (pickle, "load"), (pickle, "dump"), (os, "system"),
                               (builtins, "eval"), (builtins, "exec")):
                 arm(mod, attr)
@@ -550,7 +560,7 @@ def messages():
 def cases():
     return st.fixed_dictionaries({
         "prelude": st.lists(st.sampled_from(["get_obj", "get_list", "get_func", "get_obj"]), min_size=1, max_size=4),
-        "release": st.booleans(), "policy": st.sampled_from(["well", "well", "badly", "never"]),
+        "release": st.booleans(), "policy": st.sampled_from(["well", "well", "badly", "never"]), "conn2_custom_exc": st.booleans(),
         "messages": st.lists(messages(), min_size=1, max_size=30)})
 
 
